@@ -69,7 +69,9 @@ def run(rep, tier, seed):
     fixed = lf.replay_known(rep, "C13", oracle)
     cases = [c for c in fixed if c.settings[0] == "LR"] + cases
     glr = [c for c in fixed if c.settings[0] == "GLR"] + glr
+    lf.add_histories(rng, cases)
     lf.run_cases(cases, extra_requests=lambda c: ["cert noshiftstop"])
+    lf.add_histories(rng, glr)
     lf.run_cases(glr, model=False)
     check(rep, cases, glr, proofs_ok)
 
@@ -100,5 +102,6 @@ def replay(rep, path):
     g = lf.parse_bnf(p["grammar"])
     algo = p.get("algo", "LR")
     c = lf.Case(p["grammar"], p["settings"].split(" "), [(algo, p.get("partial", "0"), p.get("input", ""), {})], gram=g)
+    lf.apply_replay_history(c, p)
     lf.run_cases([c], model=(algo == "LR"), extra_requests=(lambda c: ["cert noshiftstop"]) if algo == "LR" else None)
     check(rep, [c] if algo == "LR" else [], [c] if algo != "LR" else [], True)
